@@ -68,6 +68,15 @@ CATALOGUE = [
     # binds C); with 'C' bound EARLIER in the context only pieces of that structure are leaves
     ("spytree", ("int",), "C", 2),
     ("spytree", ARR("a"), "C", 2),
+    # TypeVars as leaf types stand for their bound / the union of their constraints (plain classes only: the vendored
+    # typechecker compares classes there); a literal None slot inside a generic
+    ("typevar", "bound", [("int",)]),
+    ("typevar", "constr", [("int",), ("str",)]),
+    ("tuple", [("int",), ("none",)]),
+    # an UNSTRUCTURED PyTree as one alternative / component of the leaf type: the other alternatives still count
+    ("union", [("pytree", ARR("a")), ("int",), ("str",)]),
+    ("tuple", [("pytree", ARR("a")), ("pytree", ("int",))]),
+    ("union", [("pytree", ("str",)), ("int",)]),
     # a NamedTuple CLASS as leaf type: its field annotations are part of the type
     ("ntclass", [ARR("a"), ARR("a")]),
     ("ntclass", [ARR("a b"), ARR("b", "Int")]),
@@ -130,6 +139,12 @@ def leaf_gen(L, single, variadic):
             return None if rng.random() < 0.3 else mk(rng, L[1])
         if k == "arr":
             return arr_for(rng, L[2], L[1])
+        if k == "typevar":
+            return mk(rng, rng.choice(L[2]))
+        if k == "pytree":
+            n = rng.choice((0, 1, 2, 3))
+            kids = [mk(rng, L[1]) for _ in range(n)]
+            return rng.choice((list, tuple))(kids) if n != 1 or rng.random() < 0.5 else kids[0]
         if k == "ntclass":
             return LT.nt_class(L)(*[mk(rng, x) for x in L[1]])
         if k == "spytree":
